@@ -321,8 +321,55 @@ def rule_always_validated(ctx: Ctx) -> None:
     ctx.floor("8-always-validated", n, 1)
 
 
+def rule_total_predicate(ctx: Ctx) -> None:
+    """is_type_compatible answers True or False for EVERY pair of annotations; it is called on whatever the user wrote, and an
+    exception out of it surfaces as a construction failure of a valid pipeline.  The comparison functions contain no raise today;
+    a `zip(..., strict=True)` over the type arguments raises ValueError for generics of different arity (tuple[int] vs
+    tuple[int, ...]), which the prefix-wise comparison accepts."""
+    from ..flow import Scope
+
+    P = ctx.prog
+    fn = P.func("pipefunc.typing.is_type_compatible")
+    funcs = Scope(ctx, fn, wide=True).funcs
+    strict = [(f, c) for f in funcs for c in ast.walk(f.node) if isinstance(c, ast.Call) and dotted(c.func) == "zip" and any(k.arg == "strict" and not (isinstance(k.value, ast.Constant) and k.value.value is False) for k in c.keywords)]
+    raises = [(f, r) for f in funcs for r in ast.walk(f.node) if isinstance(r, (ast.Raise, ast.Assert))]
+    ctx.tri("5-wildcards", strict[0][0] if strict else fn, strict[0][1] if strict else (raises[0][1] if raises else fn.node), not strict and not raises, bool(strict),
+            f"the {len(funcs)} comparison functions contain no raise / assert / strict zip: the predicate is total",
+            f"`{norm(strict[0][1])[:60] if strict else ''}` raises ValueError when the two generics have different numbers of type arguments (tuple[int] -> tuple[int, ...]): a valid pipeline is refused at construction with an exception from inside the comparison",
+            f"`{norm(raises[0][1])[:60] if raises else ''}`: whether it can fire for well-formed annotations is not decided", key="total-predicate")
+
+
+def rule_annotations_fresh(ctx: Ctx) -> None:
+    """The annotations the validator compares are cached properties keyed by the CURRENT names; every update of a function
+    (renames, scope, defaults, bound) goes through _clear_internal_cache, which must leave none of them behind.  A value that is
+    put back after the clearing (`self.__dict__[name] = saved`, setattr) survives a rename: the annotation dict stays keyed by
+    the old output name and the edges from the renamed output are no longer compared."""
+    P = ctx.prog
+    n = 0
+    for cq in ("pipefunc._pipefunc.PipeFunc", "pipefunc._pipeline._base.Pipeline"):
+        cls = P.cls(cq)
+        fn = cls.methods.get("_clear_internal_cache")
+        if fn is None:
+            continue
+        n += 1
+        cached = {m.name for c_ in P.mro(cq) for m in c_.methods.values() if any("cached_property" in d for d in m.decorators)}
+        clears = [c for c in ast.walk(fn.node) if isinstance(c, ast.Call) and dotted(c.func).rsplit(".", 1)[-1] == "clear_cached_properties"]
+        kept = []
+        for x in ast.walk(fn.node):
+            if isinstance(x, ast.Subscript) and isinstance(x.ctx, ast.Store) and norm(x.value) == "self.__dict__":
+                kept.append(x)
+            if isinstance(x, ast.Call) and ((dotted(x.func) == "setattr" and x.args and norm(x.args[0]) == "self") or (isinstance(x.func, ast.Attribute) and x.func.attr in ("update", "setdefault") and norm(x.func.value) == "self.__dict__")):
+                kept.append(x)
+            if isinstance(x, ast.Attribute) and isinstance(x.ctx, ast.Store) and isinstance(x.value, ast.Name) and x.value.id == "self" and x.attr in cached:
+                kept.append(x)
+        ctx.tri("9-annotations-fresh", fn, (kept or clears or [fn.node])[0], bool(clears) and not kept, bool(kept), f"{cls.name}._clear_internal_cache drops every cached property ({len(cached)}) and puts nothing back",
+                f"`{norm(kept[0])[:60] if kept else ''}` in {cls.name}._clear_internal_cache puts a cached value back after the clearing: it survives renames / scope updates, so the cached annotations stay keyed by the old names "
+                "and edges from a renamed output are accepted without being compared", "clearing of the cached properties not recognised", key=f"fresh {cls.name}")
+    ctx.floor("9-annotations-fresh", n, 2)
+
+
 def check(ctx: Ctx) -> None:
-    for rule in (rule_flag, rule_typeerror, rule_unions, rule_reduction, rule_extraction, rule_wildcards, rule_readonly, rule_always_validated):
+    for rule in (rule_flag, rule_typeerror, rule_unions, rule_reduction, rule_extraction, rule_wildcards, rule_readonly, rule_always_validated, rule_annotations_fresh, rule_total_predicate):
         ctx.run(rule)
 
 
